@@ -152,7 +152,7 @@ def run(ctx):
                 "a state = (word, stream); every transition runs the real sampler entry point and, in parallel, the single-public-step replay")
     ctx.assume("the hook records max_w |cached - recomputed|/|cached| at every propagate() entry (guarded, pre-seeded key carried through scan/checkpoint)")
     ctx.assume("converged SCF trial so that optimize() inside the AD entry points is the identity; zero coupling")
-    ctx.pmap(job, configs(ctx.tier, ctx.seed))
+    ctx.pmap(job, configs(ctx.tier, ctx.seed), tasks_per_child=2)
     ctx.require_guard("words_explored", "glue_qr_changed_walkers", "glue_comb_duplicated_a_walker", "propagate_entries_observed")
 
 
